@@ -58,9 +58,9 @@ BigModes == << Mode(Wide,   LookAll, 4, 1, FALSE, 0),
                Mode(Neutr,  LookAll, 5, 2, FALSE, 0),
                Mode(Narrow, LookAll, 7, 1, FALSE, 0),
                Mode(Sorted, LookAll, 8, 1, TRUE,  0),
-               Mode(TblKey, LookTbl, 6, 1, FALSE, 2),
-               Mode(TblKey, LookTbl, 6, 1, FALSE, 3),
-               Mode(TblKey, LookTbl, 6, 1, FALSE, 4) >>
+               Mode(TblKey \ {Sb}, LookTbl, 6, 1, FALSE, 2),
+               Mode(TblKey \ {Sb}, LookTbl, 6, 1, FALSE, 3),
+               Mode(TblKey \ {Sb}, LookTbl, 6, 1, FALSE, 4) >>
 
 \* thorough tier, random part (tlc -simulate): any order, the wide pool up
 \* to length 8, and wide-pool tables 6 x 4 -- beyond what is exhaustive
